@@ -98,4 +98,23 @@ theorem podInto_u64 {f : List Nat} {o : Option Nat} (h : refCOptU64 f = some o) 
   rcases refCOptU64_some h with ⟨ht, ho⟩ | ⟨ht, ho⟩ <;>
     simp [podInto, podParts, Generated.podOptionLayout, Generated.podSome, ht, ho]
 
+/-! ## raw `PodOption` cells vs `COption` (validation functions) -/
+
+theorem podEqSome_ref {f : List Nat} {o : Option Key} (h : refCOptKey f = some o) (k : Key) :
+    podEqSome (podParts 32 f Generated.podOptionLayout 0 ([], [])) k = (o == some k) := by
+  rcases refCOptKey_some h with ⟨ht, ho⟩ | ⟨ht, ho⟩ <;>
+    simp [podEqSome, podParts, Generated.podOptionLayout, Generated.podSome, ht, ho]
+
+theorem podIsSome_ref {f : List Nat} {o : Option Key} (h : refCOptKey f = some o) :
+    podIsSome (podParts 32 f Generated.podOptionLayout 0 ([], [])) = o.isSome := by
+  rcases refCOptKey_some h with ⟨ht, ho⟩ | ⟨ht, ho⟩ <;>
+    simp [podIsSome, podParts, Generated.podOptionLayout, Generated.podSome, ht, ho]
+
+theorem mint_cells (b : List Nat) :
+    podCell Generated.mintFields b .mint_authority 32
+        = podParts 32 (slice b 0 36) Generated.podOptionLayout 0 ([], [])
+    ∧ podCell Generated.mintFields b .freeze_authority 32
+        = podParts 32 (slice b 46 36) Generated.podOptionLayout 0 ([], []) := by
+  simp [podCell, fieldOffset, Generated.mintFields, STy.size, podSize, Generated.podOptionLayout, partSize]
+
 end Spl
